@@ -184,8 +184,8 @@ fn flood_count(rng: &mut Prng, t: u32) -> (u32, &'static str) {
     }
 }
 
-pub fn gen_abuse(rng: &mut Prng, h2: &mut H2Knobs) -> ClientAbuse {
-    let mut ca = ClientAbuse { phase: Phase::Established, setup: Setup::None, settled: rng.below(2) == 0, kind: Kind::Silent, rate: Rate::all_at_once(), followup: false, feature: String::new() };
+pub fn gen_abuse(rng: &mut Prng, h2: &mut H2Knobs, tier: Tier) -> ClientAbuse {
+    let mut ca = ClientAbuse { phase: Phase::Established, setup: Setup::None, settled: rng.below(2) == 0, kind: Kind::Silent, rate: Rate::all_at_once(), followup: false, feature: String::new(), drain: false };
     let pick_setup = |rng: &mut Prng| match rng.below(6) { 0 | 1 => Setup::None, 2 => Setup::Open { siblings: rng.below(3) as u32 }, 3 => Setup::HalfClosed { siblings: rng.below(3) as u32 }, 4 => Setup::Closed, _ => Setup::Open { siblings: 0 } };
     match rng.below(20) {
         // ---------------- before the preface
@@ -295,7 +295,16 @@ pub fn gen_abuse(rng: &mut Prng, h2: &mut H2Knobs) -> ClientAbuse {
             ca.followup = false;
         }
     }
+    // thorough tier, one plan in three hundred (sozu polls its sessions without pause while draining, which is costly in wall time):
+    // the same abuse while sozu drains the connection after a soft stop
+    if ca.phase == Phase::Established && !matches!(ca.kind, Kind::TooManyStreams { .. } | Kind::Silent) && tier == Tier::Thorough && rng.below(300) == 0 {
+        ca.drain = true;
+        ca.rate = Rate::all_at_once();
+        ca.followup = false;
+        if ca.setup == Setup::None || ca.setup == Setup::Closed { ca.setup = Setup::Open { siblings: 1 }; if let Kind::Frame { cls, .. } = &mut ca.kind { if *cls == StreamClass::Closed { *cls = StreamClass::Open; } } if matches!(ca.kind, Kind::GlitchFlood { .. }) { ca.drain = false; ca.setup = Setup::Closed; } }
+    }
     ca.feature = format!("{}/{}", phase_name(ca.phase), ca.feature);
+    if ca.drain { ca.feature += "@draining"; }
     match &ca.setup { Setup::None => {} Setup::Open { .. } => ca.feature += "@open_streams", Setup::HalfClosed { .. } => ca.feature += "@half_closed", Setup::Closed => ca.feature += "@after_closed" }
     ca
 }
@@ -370,6 +379,16 @@ fn bystanders(rng: &mut Prng, tier: Tier, buffer_size: usize, window_ns: u64) ->
     (h1, h2, resp)
 }
 
+/// `MuxPlan` through serde, so that fields added to it later (with serde defaults) do not break this module.
+fn mk_mux(seed: u64, family: String, knobs: Knobs, sched: crate::world::SchedCfg, clusters: Vec<MuxCluster>, h1_clients: Vec<ClientPlan>, h2_clients: Vec<H2ClientPlan>, sndbufs: Option<Vec<i32>>) -> MuxPlan {
+    let http_front: std::net::SocketAddr = "10.0.0.1:80".parse().unwrap();
+    let https_front: std::net::SocketAddr = "10.0.0.1:443".parse().unwrap();
+    serde_json::from_value(serde_json::json!({
+        "seed": seed, "family": family, "knobs": knobs, "sched": sched, "http_front": http_front, "https_front": https_front,
+        "clusters": clusters, "h1_clients": h1_clients, "h2_clients": h2_clients, "sndbufs": sndbufs, "settle_ns": SETTLE,
+    })).expect("MuxPlan")
+}
+
 pub fn gen_client(seed: u64, tier: Tier) -> NetPlan {
     let mut rng = Prng::derive(seed, "c15/abuse_client");
     let faulty = rng.below(3) == 0;
@@ -378,7 +397,7 @@ pub fn gen_client(seed: u64, tier: Tier) -> NetPlan {
     let h2_base = h2;
     let (ca, mut h2) = loop {
         let mut h = h2_base.clone();
-        let ca = gen_abuse(&mut rng, &mut h);
+        let ca = gen_abuse(&mut rng, &mut h, tier);
         if preface_flags_supported() || !matches!(ca.phase, Phase::NoPreface | Phase::NoSettings) { break (ca, h); }
     };
     if matches!(ca.kind, Kind::TooManyStreams { .. }) { h2.max_streams = *rng.pick(&[2u32, 4, 10, 100]); }
@@ -407,24 +426,19 @@ pub fn gen_client(seed: u64, tier: Tier) -> NetPlan {
     a.give_up_ns = ABUSER_GIVE_UP;
     a.start_ns = rng.below(10 * MS);
     h2_clients.insert(0, a);
-    let mux = MuxPlan {
-        seed,
-        family: format!("abuse_client{}", if faulty { "+buggify" } else { "" }),
-        knobs: k,
-        sched: netsim::default_sched(&mut rng, faulty),
-        http_front: "10.0.0.1:80".parse().unwrap(),
-        https_front: "10.0.0.1:443".parse().unwrap(),
-        clusters: vec![
+    let mux = mk_mux(seed, format!("abuse_client{}", if faulty { "+buggify" } else { "" }), k, netsim::default_sched(&mut rng, faulty), vec![
             MuxCluster { id: "c0".into(), host: HOST_A.into(), backend: b0, mode: BackendMode::Listen { delay_ns: 0 } },
             MuxCluster { id: "c1".into(), host: HOST_G.into(), backend: b1, mode: BackendMode::Listen { delay_ns: 0 } },
-        ],
-        h1_clients,
-        h2_clients,
-        sndbufs: if rng.below(4) == 0 { Some(vec![0, 4608, 32768]) } else { None },
-        settle_ns: SETTLE,
-        soft_stop_at_ns: None,
-        h2_deadline_secs: None,
-    };
+        ], h1_clients, h2_clients, if rng.below(4) == 0 { Some(vec![0, 4608, 32768]) } else { None });
+    let mut mux = mux;
+    if ca.drain {
+        mux.soft_stop_at_ns = Some(SOFT_STOP_AT);
+        // sozu polls its sessions without pause while it drains (costly in wall time): a short graceful deadline
+        mux.h2_deadline_secs = Some(1);
+        mux.h2_clients.retain(|c| c.name != "probe");
+        mux.h1_clients.retain(|c| c.name != "probe");
+        mux.family = mux.family.replace("abuse_client", "abuse_client_draining");
+    }
     NetPlan { mux, h2, client_abuse: Some(ca), backend_abuse: None }
 }
 
@@ -533,23 +547,9 @@ pub fn gen_backend(seed: u64, tier: Tier) -> NetPlan {
         let reqs: Vec<ReqSpec> = (0..nreq).map(|i| { let mut r = ReqSpec::get(ID_VICTIM + i, HOST_B, &format!("/v/{i}")); r.headers.push(("Content-Length".into(), "0".into())); r }).collect();
         h1_clients.insert(0, ClientPlan { name: "victim".into(), src: "192.0.2.7:40001".parse().unwrap(), dst: "10.0.0.1:80".parse().unwrap(), start_ns: rng.below(5 * MS), pace: Pace::greedy(), pipeline: false, requests: reqs, abort: None, sndbuf: None, think_ns: 0, linger_ns: 0, give_up_ns: 60 * SEC, wait_board: None });
     }
-    let mux = MuxPlan {
-        seed,
-        family: format!("abuse_backend{}", if faulty { "+buggify" } else { "" }),
-        knobs: k,
-        sched,
-        http_front: "10.0.0.1:80".parse().unwrap(),
-        https_front: "10.0.0.1:443".parse().unwrap(),
-        clusters: vec![
+    let mux = mk_mux(seed, format!("abuse_backend{}", if faulty { "+buggify" } else { "" }), k, sched, vec![
             MuxCluster { id: "cb".into(), host: HOST_B.into(), backend: MuxBackend::H2(bb), mode: BackendMode::Listen { delay_ns: 0 } },
             MuxCluster { id: "c1".into(), host: HOST_G.into(), backend: b1, mode: BackendMode::Listen { delay_ns: 0 } },
-        ],
-        h1_clients,
-        h2_clients,
-        sndbufs: None,
-        settle_ns: SETTLE,
-        soft_stop_at_ns: None,
-        h2_deadline_secs: None,
-    };
+        ], h1_clients, h2_clients, None);
     NetPlan { mux, h2, client_abuse: None, backend_abuse: Some(ba) }
 }
